@@ -8,6 +8,10 @@ use std::convert::Infallible;
 
 thread_local! {
     static LOG: RefCell<Vec<(Vec<u8>, Vec<u8>, Vec<u8>, Vec<u8>)>> = const { RefCell::new(Vec::new()) };
+    /// first 16 stream bytes -> the key that produced them (whole run)
+    static SEEN: RefCell<std::collections::HashMap<Vec<u8>, (Vec<u8>, Vec<u8>, Vec<u8>)>> = RefCell::new(Default::default());
+    /// pairs of distinct keys whose streams begin with the same 16 bytes
+    static COLLISIONS: RefCell<Vec<String>> = const { RefCell::new(Vec::new()) };
 }
 
 #[derive(Clone, Debug)]
@@ -55,6 +59,31 @@ impl Drop for RecStream {
     fn drop(&mut self) {
         let (s, d, b) = std::mem::take(&mut self.key);
         let r = std::mem::take(&mut self.read);
+        // a stream is a function of (seed, dst, binder) and of nothing less: two different keys giving the
+        // same 128 bits means some part of a key was not absorbed (or a 2^-128 accident)
+        if r.len() >= 16 {
+            let k = (s.clone(), d.clone(), b.clone());
+            SEEN.with(|m| {
+                let mut m = m.borrow_mut();
+                match m.get(&r[..16]) {
+                    Some(prev) if *prev != k => {
+                        let what = if prev.0 != k.0 { "seed" } else if prev.1 != k.1 { "domain separation tag (context)" } else { "binder" };
+                        COLLISIONS.with(|c| {
+                            let mut c = c.borrow_mut();
+                            if c.len() < 50 {
+                                c.push(format!("streams of two XOF invocations that differ in the {} coincide: dst {} vs {}, binder {} vs {}", what, hex(&prev.1), hex(&k.1), hex(&prev.2), hex(&k.2)));
+                            }
+                        });
+                    }
+                    Some(_) => {}
+                    None => {
+                        if m.len() < 2_000_000 {
+                            m.insert(r[..16].to_vec(), k);
+                        }
+                    }
+                }
+            });
+        }
         LOG.with(|l| l.borrow_mut().push((s, d, b, r)));
     }
 }
@@ -78,4 +107,9 @@ pub fn table() -> String {
         return "none".into();
     }
     best.into_iter().map(|((s, d, b), r)| format!("{}:{}:{}:{}", hex(&s), hex(&d), hex(&b), hex(&r))).collect::<Vec<_>>().join(",")
+}
+
+/// distinct XOF inputs whose streams coincided during the run
+pub fn collisions() -> Vec<String> {
+    COLLISIONS.with(|c| std::mem::take(&mut *c.borrow_mut()))
 }
